@@ -85,6 +85,8 @@ def fmt_place(p, body=None):
 def fmt_const(c):
     if "fn" in c:
         return "fn:" + c["fn"]
+    if "static" in c:
+        return "&static " + c["static"]
     if "def" in c and "val" in c:
         return "%s(=%s)" % (c["def"], json.dumps(c["val"]))
     if "def" in c:
